@@ -199,7 +199,7 @@ macro_rules! for_es {
 
 pub fn run(ctx: &mut Ctx) {
     for_ks!([0, 1, 2, 3, 7, 8, 16, 17, 33, 64, 100, 1024], K => {
-        for_es!([u8, P3, u64, (), A16, Tr<0>], E => {
+        for_es!([u8, P3, u64, (), A16, Tr<0>, B3, A64], E => {
             type N = ConstArrayLength<K>;
             let ls: Vec<usize> = if K < 100 { (0..=4 * K + 3).collect() } else {
                 let mut v = vec![0, 1, K - 1, K, K + 1, 2 * K - 1, 2 * K, 2 * K + 1, 4 * K + 3]; v.sort(); v.dedup(); v };
